@@ -20,9 +20,6 @@ func (c *Ctx) recursionCycles(pkgs ...string) [][]*ssa.Function {
 	var fns []*ssa.Function
 	in := map[*ssa.Function]bool{}
 	for _, f := range c.P.Funcs {
-		if isInstance(f) {
-			continue
-		}
 		if own[engine.RelPkg(c.P.OwnPkgPath(f))] {
 			fns = append(fns, f)
 			in[f] = true
